@@ -41,6 +41,9 @@ class TableOps:
             g = _tbl_get_in(ev.args[0])
             if g is not None:
                 return add(st, ("subamt", g, ev.args[1], d.rsplit("::", 1)[1]))
+            if ev.args[0][0] == "entryval" or (ev.args[0][0] == "deref" and ev.args[0][1][0] == "ref" and ev.args[0][1][1][0] == "entryval"):
+                ev0 = ev.args[0] if ev.args[0][0] == "entryval" else ev.args[0][1][1]
+                return add(st, ("subamt2", ev0, ev.args[1], d.rsplit("::", 1)[1]))
         return None
 
     def on_tbl(self, eng, ev, st):
@@ -80,19 +83,37 @@ class TableOps:
         if tb is None and ev.recv is not None and ev.container.rsplit("::", 1)[-1] in ("OccupiedEntry", "VacantEntry"):
             for f in st.flags:
                 if f[0] == "entry" and f[2] is not None and sub(ev.recv, f[1]):
-                    if ev.container.endswith("OccupiedEntry") and ev.op in ("get_mut", "into_mut"):
+                    if ev.container.endswith("OccupiedEntry") and ev.op in ("get_mut", "into_mut", "get"):
                         return add(st, ("slot", ev.res, f[2], f[3], ("const", "0", None), "occupied"))
+                    if ev.container.endswith("OccupiedEntry") and ev.op in ("remove", "remove_entry"):
+                        # the record is deleted: a subtraction by (at least) what is recorded
+                        kind, target = link_key(f[3], st)
+                        amt = None
+                        old = ("entryval", mk_deref(ev.recv) if ev.recv[0] == "ref" else ev.recv)
+                        for g in st.flags:
+                            if g[0] == "subamt2" and g[1] == old:
+                                amt = g[2]
+                        self.sites["sub"].add(ev.b)
+                        eng.obl("SYM-4", "sub:remove", ev.b)
+                        return add(st, ("top", "sub", f[2], kind, target, amt))
                     if ev.container.endswith("VacantEntry") and ev.op in ("insert", "insert_entry") and len(ev.args) >= 2:
                         kind, target = link_key(f[3], st)
                         self.sites["add"].add(ev.b)
                         eng.obl("SYM-4", "add", ev.b)
                         if not is_const(ev.args[1], 1):
                             eng.violate("SYM-4", "insert-not-plus-one", "a link that was not recorded before is created with count %s instead of 1" % show(ev.args[1])[:40], ev.b, st)
+                        st = rem(st, lambda g: g[0] == "top" and g[1] == "sub" and g[2] == f[2] and g[5] == ABSENT and g[3] == kind and g[4] == target)
                         return add(st, ("top", "add", f[2], kind, target, ev.args[1]))
             return None
         if tb is None:
             return None
         if ev.op == "remove" and len(ev.args) >= 2:
+            k_ = ev.args[1][1] if ev.args[1][0] == "ref" else ev.args[1]
+            pend = [f for f in st.flags if f[0] == "zero_pending" and f[1] == tb and f[2] == k_]
+            if pend:
+                # the entry that was lowered to (possibly) zero is pruned
+                eng.obl("SYM-4", "sub:remove", ev.b)
+                return rem(st, lambda g: g in pend)
             kind, target = link_key(ev.args[1], st)
             amt = self._amount(st, tb, ev.args[1])
             self.sites["sub"].add(ev.b)
@@ -148,6 +169,17 @@ class TableOps:
         return None
 
     def on_variant(self, eng, st, inner, v, b):
+        # `let Entry::Occupied(slot) = map.entry(k) else { return }`: a vacant entry means there is no record
+        if v == "1" and inner[0] == "call" and inner[2].startswith("hashbrown::HashMap") and inner[2].endswith("::entry") and len(inner[3]) >= 2:
+            tb = table_of(inner[3][0])
+            if tb is not None:
+                kind, target = link_key(inner[3][1], st)
+                return add(st, ("top", "sub", tb, kind, target, ABSENT))
+        # a lookup of an entry that was just written through cannot fail
+        if v == "0" and inner[0] == "call" and inner[2].startswith("hashbrown::HashMap") and inner[2].rsplit("::", 1)[1] in ("get", "get_mut", "get_key_value") and len(inner[3]) >= 2:
+            tb0 = table_of(inner[3][0])
+            if tb0 is not None and any(f[0] == "zero_pending" and f[1] == tb0 and _same_key(f[2], inner[3][1]) for f in st.flags):
+                return False
         # get_mut(k) returned None: there is no record to lower (the subtraction is vacuous)
         if v == "0" and inner[0] == "call" and inner[2].startswith("hashbrown::HashMap") and inner[2].endswith("::get_mut") and len(inner[3]) >= 2:
             tb = table_of(inner[3][0])
@@ -177,14 +209,18 @@ class TableOps:
                     if v[0] == "bin" and v[1] in ("Add", "AddUnchecked") and (v[2] == old or v[3] == old):
                         amt = v[3] if v[2] == old else v[2]
                         return add(st, ("top", "add", tb, kind, target, amt))
+                    # `*count = count.saturating_sub(n)` followed by `if *count == 0 { remove }` (possibly in a guard's Drop)
+                    if v[0] == "call" and v[2].startswith("core::num::") and v[2].endswith("::saturating_sub") and len(v[3]) == 2 and v[3][0] == old:
+                        return add(st, ("top", "sub", tb, kind, target, v[3][1]), ("zero_pending", tb, key if key[0] != "ref" else key[1], ev.b))
                     # `match count.checked_sub(n) { Some(rest) if rest > 0 => *count = rest, _ => remove }`
+                    v, nz_known = unwrap_nonzero(v)
                     cs = v
                     if cs[0] == "field" and cs[1][0] == "variant" and cs[1][2] == "Some":
                         cs = cs[1][1]
                     if cs is not v and cs[0] == "call" and cs[2].startswith("core::num::") and cs[2].endswith("::checked_sub") and len(cs[3]) == 2 and cs[3][0] == old:
                         amt = cs[3][1]
                         nonzero = any(h[0] == "cmp" and h[2] == v and is_const(h[3], 0) and ((h[1] == "Ne" and h[4]) or (h[1] == "Eq" and not h[4]) or (h[1] == "Gt" and h[4]) or (h[1] == "Le" and not h[4])) for h in st.flags) \
-                            or mentions(v, lambda x: x[0] == "call" and x[2].startswith("core::num::NonZero"))
+                            or mentions(v, lambda x: x[0] == "call" and x[2].startswith("core::num::NonZero")) or nz_known
                         if not nonzero:
                             eng.violate("SYM-4", "may-store-zero", "a link count is written back after subtraction without proof that it is non-zero (entries with count 0 keep a table non-empty forever)", ev.b, st)
                         return add(st, ("top", "sub", tb, kind, target, amt))
@@ -202,13 +238,44 @@ class TableOps:
                         amt = v[3]
                     elif v[3] == old:
                         amt = v[2]
+                occupied = len(f) > 5 and f[5] == "occupied"
+                if occupied and amt is None:
+                    v2, nz_known = unwrap_nonzero(v)
+                    cs = v2
+                    if cs[0] == "field" and cs[1][0] == "variant" and cs[1][2] == "Some":
+                        cs = cs[1][1]
+                    if cs is not v2 and cs[0] == "call" and cs[2].startswith("core::num::") and cs[2].endswith("::checked_sub") and len(cs[3]) == 2 and cs[3][0] == old:
+                        nonzero = nz_known or any(h[0] == "cmp" and h[2] == v2 and is_const(h[3], 0) and ((h[1] == "Ne" and h[4]) or (h[1] == "Eq" and not h[4]) or (h[1] == "Gt" and h[4]) or (h[1] == "Le" and not h[4])) for h in st.flags)
+                        eng.obl("SYM-4", "sub:in-place", ev.b)
+                        self.sites["sub"].add(ev.b)
+                        if not nonzero:
+                            eng.violate("SYM-4", "may-store-zero", "a link count is written back after subtraction without proof that it is non-zero (entries with count 0 keep a table non-empty forever)", ev.b, st)
+                        st = rem(st, lambda g: g == f)
+                        return add(st, ("top", "sub", tb, kind, target, cs[3][1]))
                 self.sites["add"].add(ev.b)
                 eng.obl("SYM-4", "add", ev.b)
-                occupied = len(f) > 5 and f[5] == "occupied"
                 if amt is None or not is_const(amt, 1) or not (occupied or is_const(init, 0)):
                     eng.violate("SYM-4", "insert-not-plus-one", "recording a link changes its count by something other than +1 from a 0 start (%s)" % show(v)[:80], ev.b, st)
                 st = rem(st, lambda g: g == f)
                 return add(st, ("top", "add", tb, kind, target, amt))
+        return None
+
+    def on_return(self, eng, ev, st):
+        if any(f[0] == "unwinding" for f in st.flags):
+            return None
+        for f in st.flags:
+            if f[0] != "zero_pending":
+                continue
+            tb, key = f[1], f[2]
+            nonzero = False
+            for h in st.flags:
+                if h[0] == "cmp" and is_const(h[3], 0):
+                    g = _tbl_get_in(h[2])
+                    if g is not None and table_of(g[3][0]) == tb and _same_key(g[3][1], key):
+                        if (h[1] == "Eq" and not h[4]) or (h[1] == "Ne" and h[4]) or (h[1] == "Gt" and h[4]) or (h[1] == "Le" and not h[4]):
+                            nonzero = True
+            if not nonzero:
+                eng.violate("SYM-4", "may-store-zero", "a link count is lowered with saturating arithmetic and can be left at zero: the entry is not removed on this path (entries with count 0 keep a table non-empty forever)", f[3], st)
         return None
 
     def _known_absent(self, st, tb, key):
@@ -244,6 +311,17 @@ class TableOps:
                     if (op == "Lt" and not truth) or (op == "Ge" and truth):
                         return x
         return None
+
+
+def unwrap_nonzero(v):
+    """`NonZero::new(y)` -> Some(nz) -> `nz.get()` is y, known to be non-zero: (y, True); otherwise (v, False)."""
+    if v[0] == "call" and v[2].startswith("core::num::NonZero") and v[2].endswith("::get") and v[3]:
+        a = v[3][0]
+        if a[0] == "field" and a[1][0] == "variant" and a[1][2] == "Some":
+            inner = a[1][1]
+            if inner[0] == "call" and inner[2].startswith("core::num::NonZero") and inner[2].endswith("::new") and inner[3]:
+                return inner[3][0], True
+    return v, False
 
 
 def _same_key(a, b):
@@ -300,6 +378,8 @@ class AdoptSchema:
     def on_return(self, eng, ev, st):
         if any(f[0] == "unwinding" for f in st.flags):
             return None
+        if getattr(eng.fn, "unexpanded", None):
+            return None     # part of this entry point could not be analysed: no schema can be read off its paths
         self.paths += 1
         eng.obl("SYM-1" if self.which == "adopt" else "SYM-2", "return", ev.b)
         eng.obl("EFF-3", self.which, ev.b)
@@ -356,25 +436,42 @@ class Purge:
         self.entry_name = entry_name
         self.elems = set()
 
-    def _filter_only_excludes_self(self, closure, E):
-        cl = self.closures.run(closure, params={2: ("ref", E)})
-        if cl is None or cl["effects"] or len(cl["returns"]) != 1:
-            return False
-        r = cl["returns"][0]
-        peer = mk_field(mk_deref(mk_field(E, "0", "")), "ptr", LINK)
-        neg = False
-        if r[0] == "un" and r[1] == "Not":
-            neg, r = True, r[2]
+    def _same_as_self(self, c, peer):
+        """+1 if `c` holds exactly when the peer is the dying object itself, -1 if exactly when it is not, else None."""
+        sign = 1
+        while c[0] == "un" and c[1] == "Not":
+            sign, c = -sign, c[2]
         a = b = None
-        if r[0] == "call" and r[2] == "core::ptr::eq" and len(r[3]) == 2:
-            a, b = r[3]
-        elif r[0] == "bin" and r[1] in ("Eq", "Ne"):
-            a, b = r[2], r[3]
-            if r[1] == "Ne":
-                neg = not neg
-        if a is None or not neg:
+        if c[0] == "call" and c[2] == "core::ptr::eq" and len(c[3]) == 2:
+            a, b = c[3]
+        elif c[0] == "bin" and c[1] in ("Eq", "Ne"):
+            a, b = c[2], c[3]
+            if c[1] == "Ne":
+                sign = -sign
+        if a is None or {a, b} != {self.self_box, peer}:
+            return None
+        return sign
+
+    def _skips_only_self(self, closure, seen, peer, name):
+        """A `filter` / `filter_map` stage of the purge walk may only withhold the entry that names the dying object."""
+        cl = self.closures.run(closure, params={2: seen if name == "filter_map" else ("ref", seen)})
+        if cl is None or cl["effects"]:
             return False
-        return {a, b} == {self.self_box, peer}
+        for pcs, ret in cl["paths"]:
+            if name == "filter_map":
+                if not (ret[0] == "agg" and ret[2] == "core::option::Option"):
+                    return False
+                dropped = ret[3] == "None"
+            elif is_const(ret):
+                dropped = ret[1] == "0"
+            else:
+                # the verdict is the value of an expression: it must be "is not the object itself"
+                if self._same_as_self(ret, peer) != -1:
+                    return False
+                continue
+            if dropped and not any(self._same_as_self(c, peer) == (1 if truth else -1) for c, truth in pcs):
+                return False
+        return True
 
     def on_variant(self, eng, st, inner, v, b):
         if inner[0] != "call" or inner[2] != "core::iter::Iterator::next":
@@ -382,16 +479,28 @@ class Purge:
         src = iter_source(inner[3][0])
         if src is None or src[0] != "table" or src[1] != self.self_box:
             return None
-        if not (st.strong(self.self_box) <= DEAD) or st.empty(self.self_box) is True:
+        # in Rc::drop the purge belongs to the path on which the object is dead; a handle-consuming API unlinks the
+        # object while it still holds the sole strong reference
+        if (self.entry_kind == "rc_drop" and not (st.strong(self.self_box) <= DEAD)) or st.empty(self.self_box) is True:
             return None
         if v == "1":
-            E = mk_field(("variant", inner, "Some", 1), "0", "")
+            from rules_trace import adapted_elem, _strip_outer
+            ae = adapted_elem(self.closures, inner) if self.closures is not None else None
+            # the walk is described over the entry of the underlying table iterator, whatever the adaptors make of it
+            # (when no adaptor changes the element, the interpreter names it by the adapted `next` call itself)
+            E = ae[1] if ae is not None and ae[2] else mk_field(("variant", inner, "Some", 1), "0", "")
+            peer = mk_field(mk_deref(mk_field(E, "0", "")), "ptr", LINK)
             self.elems.add(b)
             eng.obl("SYM-3", "peer-entry", b)
-            for name, cargs in src[-1]:
+            for i, (name, cargs) in enumerate(src[-1]):
                 ok = False
-                if name == "filter" and cargs and self.closures is not None:
-                    ok = self._filter_only_excludes_self(cargs[0], E)
+                if name in ("map", "copied", "cloned", "inspect", "by_ref", "peekable", "fuse"):
+                    ok = ae is not None    # one element out per element in
+                elif name in ("filter", "filter_map") and cargs and self.closures is not None:
+                    below = ("call", inner[1], "core::iter::Iterator::next", (_strip_outer(inner[3][0], i + 1),))
+                    ae_b = adapted_elem(self.closures, below)
+                    if ae_b is not None:
+                        ok = self._skips_only_self(cargs[0], ae_b[0] if (ae is not None and ae[2]) else E, peer, name)
                 if not ok:
                     eng.violate("SYM-3", "purge-iteration-restricted:%s" % name, "the purge of a dying object walks its link table through `%s`, which can skip peers other than the object itself: skipped peers keep records naming freed memory" % name, b, st)
             return add(st, ("purge_pending", E, b))
@@ -562,7 +671,7 @@ class ApiSpec:
             return None
         if n == "Rc::make_mut":
             for f in flags:
-                if f[0] == "killed" and ("decw", f[1]) not in flags:
+                if f[0] == "killed" and ("decw", f[1]) not in flags and not any(g[0] == "api_hdrop" and g[1] == "Weak" and g[2] == f[1] for g in flags):
                     eng.violate("API-1", "make_mut:implicit-weak-kept", "Rc::make_mut takes the last strong reference of the old allocation without releasing its implicit weak (the allocation is never freed)", ev.b, st)
             return None
         if n == "Weak::upgrade":
